@@ -1,7 +1,7 @@
 """C14 — generated types with doubles have a lawful total order, equality and hash (partial)."""
 from ..facts import ty_adt, tystr, walk_ty, place_local, place_proj, op_place, strip_refs
 from ..cfg import CFG, Tracer
-from .. import dt, instance, minterp, inline
+from .. import dt, instance, minterp, inline, tguard
 
 DOPS = "conjure_object::private::DoubleOps"
 OF = "ordered_float::OrderedFloat"
@@ -108,10 +108,12 @@ def run(ctx):
         ctx.check(not bad, "R14.3", b.loc(), f"{who}|elements-via-doubleops", f"{who}: elements compared outside DoubleOps: {bad}", instance=f"{who}: elements only through DoubleOps")
     vec_eq = [b for b in c.bodies if b.trait == DOPS and ty_adt(b.self_ty) == "alloc::vec::Vec" and b.name == "eq"]
     if len(vec_eq) == 1:
-        b = vec_eq[0]
+        # the comparison may be delegated to a private slice helper: decided on the expansion
+        b = inline.expand(c, vec_eq[0], depth=2, pred=lambda cb: cb.d.get("vis") != "pub", lower=True)
         cfg = CFG(b)
         idx = [bb for bb, t in b.calls() if t["call"]["name"] == "index"] + [i for i, blk in enumerate(b.blocks) if "assert" in blk["t"] and blk["t"]["kind"] == "bounds"]
-        falses = [bb for bb, j, s in b.stmts() if place_local(s["d"]) == 0 and "use" in s["r"] and (s["r"]["use"].get("c") or {}).get("bool") is False]
+        rets_ = dt.return_aliases(b)
+        falses = [bb for bb, j, s in b.stmts() if place_local(s["d"]) in rets_ and not place_proj(s["d"]) and "use" in s["r"] and (s["r"]["use"].get("c") or {}).get("bool") is False]
         guard = None
         for i, blk in enumerate(b.blocks):
             if "switch" in blk["t"]:
@@ -123,7 +125,7 @@ def run(ctx):
         ctx.check(ok, "R14.3", b.loc(), "Vec::eq|length-first", "Vec::eq must compare lengths before indexing and return false on mismatch (prefix-related lists would otherwise panic or compare equal)", instance="Vec::eq: len mismatch -> false, before any indexing")
     vec_cmp = [b for b in c.bodies if b.trait == DOPS and ty_adt(b.self_ty) == "alloc::vec::Vec" and b.name == "cmp"]
     if len(vec_cmp) == 1:
-        b = vec_cmp[0]
+        b = inline.expand(c, vec_cmp[0], depth=2, pred=lambda cb: cb.d.get("vis") != "pub", lower=True)
         lc = [t for _, t in b.calls() if t["call"]["name"] == "cmp" and tystr(strip_refs(t["call"]["substs"][0])) == "usize"]
         ok = len(lc) == 1
         why = ""
@@ -169,7 +171,7 @@ def run(ctx):
         field_t = 0
         type_t = 0
         for fn in tm["functions"]:
-            if not any(fn["file"].endswith(x) for x in ("conjure-codegen/src/objects.rs", "conjure-codegen/src/unions.rs", "conjure-codegen/src/aliases.rs")):
+            if "conjure-codegen/src/" not in fn["file"]:
                 continue
             for q in fn["quotes"]:
                 txt = q["text"].replace(" ", "").replace("\n", "")
@@ -182,6 +184,11 @@ def run(ctx):
                     ctx.check(ok, "R14.5", where, f"{fn['name']}|field-template|routes", f"{fn['name']}: the educe field template must route PartialEq/Ord/Hash to DoubleOps::eq/cmp/hash; template: {txt[:200]}",
                               instance=f"{fn['name']}: field educe -> DoubleOps::eq/cmp/hash")
                     under = any("is_double" in cnd and cnd.startswith("if") for cnd in q["conds"])
+                    if not under and tguard.positive_guard(q["conds"], "is_double", allow_others=True) is None:
+                        # early-return style helper (`if !is_double(ty) { return quote!() }`): not a syntactic condition of the
+                        # template; the generated instances are decided by R14.6
+                        ctx.note(f"R14.5 {fn['name']}: field template emitted under no syntactic is_double condition (decision taken elsewhere); instances decided by R14.6")
+                        continue
                     ctx.check(under, "R14.5", where, f"{fn['name']}|field-template|guard", f"{fn['name']}: the field template is emitted under {q['conds']}, expected the is_double predicate", instance=f"{fn['name']}: emitted under is_double")
                 elif all(x in txt for x in ("PartialEq", "Eq", "PartialOrd", "Ord", "Hash")):
                     type_t += 1
@@ -197,7 +204,7 @@ def run(ctx):
                         ctx.note(f"R14.5 {fn['name']}: type-level educe emitted under no syntactic condition (decision taken elsewhere); instance decided by R14.6")
                         continue
                     ctx.check(under, "R14.5", where, f"{fn['name']}|type-template|guard", f"{fn['name']}: the type-level educe is emitted under {q['conds']}, expected has_double / is_double", instance=f"{fn['name']}: type educe under has_double")
-        ctx.floor("R14.5", "educe field templates", field_t, 3)
+        ctx.floor("R14.5", "educe field templates", field_t, 1)
         ctx.floor("R14.5", "educe type templates", type_t, 3)
     # ---------------- R14.6 instance
     ct = F.crate("conjure_test")
